@@ -146,7 +146,7 @@ func r11_2(c *Ctx, rule string) {
 		reject := name == "excludeMatcher"
 		ex := c.explorer(op)
 		ex.From = q
-		ex.Assume = map[string]bool{q.Name() + "#0": reject, "(" + q.Name() + "#1==nil)": true}
+		ex.Assume = map[string]bool{c.reg(q) + "#0": reject, "(" + c.reg(q) + "#1==nil)": true}
 		bad := ""
 		ex.Target = func(in ssa.Instruction, st *eng.State) bool {
 			if isDelegate(in) {
